@@ -308,6 +308,16 @@ where
             }
             match guarded(&check, &case) {
                 Ok(()) => Ok(()),
+                Err(m) if m.starts_with("ENGINE-UNCONFIRMED") => {
+                    // a schedule-dependent anomaly that did not reproduce in the amplified re-runs:
+                    // recorded in the evidence, neither a violation nor an engine error
+                    let mut a = accr.borrow_mut();
+                    *a.res.classes.entry("unconfirmed-anomaly(not-reproduced)".to_string()).or_insert(0) += 1;
+                    if a.res.notes.len() < 5 {
+                        a.res.notes.push(format!("UNCONFIRMED-ANOMALY: {}", m));
+                    }
+                    Ok(())
+                }
                 Err(m) if m.starts_with("ENGINE") => {
                     // harness-side problem (watchdog, scratch file, fork): never a violation
                     let mut a = accr.borrow_mut();
